@@ -723,6 +723,15 @@ class Source:
                                                          'unit': 'CausableReasoning', 'types': self.t_trait, 'body': None,
                                                          'sig': it['sig'], 'bad': None}
 
+    def other_sources(self):
+        """(relative path, comment-free text) of every .rs file of the crate except the extension file"""
+        import pathlib
+        root = pathlib.Path(self.repo) / SRC
+        for f in sorted(root.rglob('*.rs')):
+            rel = SRC + str(f.relative_to(root))
+            if rel != F_EXT:
+                yield rel, strip_comments(f.read_text())
+
     def _check_ext(self):
         src = self.txt[F_EXT]
         defaults = set(self.fns['CausableReasoning'])
@@ -741,6 +750,11 @@ class Source:
                     raise Unsupported(f'{F_EXT}: impl CausableReasoning for Vec is not the four make_*! macros')
         if not seen_vec:
             raise Unsupported(f'{F_EXT}: impl CausableReasoning for Vec not found')
+        # an impl of the trait for another type (e.g. a fixed-size array `[T; N]`) in any other file of the crate would be
+        # picked by method resolution before the extension impls — and could override the default methods translated here
+        for f, text in self.other_sources():
+            if re.search(r'\bimpl\b[^{;]*\bCausableReasoning\s*<[^{;]*\bfor\b', text):
+                raise Unsupported(f'{f}: an impl of CausableReasoning outside {F_EXT}')
 
     def body(self, fn):
         if fn['bad']:
